@@ -345,6 +345,9 @@ func runC17Child(c *Ctx) error {
 	if err := c17ProtoSessions(c); err != nil {
 		return err
 	}
+	if err := c17Parsed(c); err != nil {
+		return err
+	}
 	for sr := 0; sr < c.N(8, 120); sr++ {
 		if err := c17Sessions(c, sr); err != nil {
 			return err
@@ -1275,3 +1278,147 @@ func c17ProtoSessions(c *Ctx) error {
 }
 
 var _ = big.NewInt
+
+// c17ChainOps: a chain like c17Chain with the gate kinds drawn from [ops].
+func c17ChainOps(r *RNG, ni, ng int, ops []circuit.Operation) *circuit.Circuit {
+	gates := make([]circuit.Gate, ng)
+	prev := 0
+	for k := 0; k < ng; k++ {
+		gates[k] = circuit.Gate{Input0: circuit.Wire(prev), Input1: circuit.Wire(k % ni), Output: circuit.Wire(ni + k), Op: ops[r.Intn(len(ops))]}
+		prev = ni + k
+	}
+	c := &circuit.Circuit{NumGates: ng, NumWires: ni + ng, Gates: gates}
+	c.Inputs = circuit.IO{{Name: "a", Type: uintInfo(ni)}}
+	c.Outputs = circuit.IO{{Name: "r0", Type: uintInfo(4)}}
+	for _, g := range gates {
+		c.Stats[g.Op]++
+	}
+	return c
+}
+
+// c17Parsed: circuits obtained THROUGH THE PARSERS (Marshal/MarshalBristol, then
+// ParseMPCLC/ParseBristol/Parse), in pairs with equal NumWires/NumGates and different gate
+// mixes (a garbling of the heavy one needs far more table rows than one of the light one),
+// parsed in both orders, garbled and evaluated sequentially (Release in between, so that
+// buffers are reused) and concurrently.  What a circuit value's Garble does must not depend
+// on what else was parsed in the process.
+func c17Parsed(c *Ctx) error {
+	r := c.rng.Fork()
+	dir, err := os.MkdirTemp("", "c17parsed")
+	if err != nil {
+		return err
+	}
+	defer os.RemoveAll(dir)
+	for tr := 0; tr < c.N(6, 40); tr++ {
+		ni := r.Range(4, 8)
+		ng := r.Range(40, 400)
+		format := tr % 3 // 0 ParseMPCLC, 1 ParseBristol, 2 Parse(file)
+		lightOps := []circuit.Operation{circuit.XOR, circuit.XNOR}
+		heavyOps := []circuit.Operation{circuit.OR, circuit.AND, circuit.OR}
+		if format != 0 {
+			lightOps = []circuit.Operation{circuit.XOR}
+			heavyOps = []circuit.Operation{circuit.AND}
+		}
+		src := []*circuit.Circuit{c17ChainOps(r, ni, ng, lightOps), c17ChainOps(r, ni, ng, heavyOps)}
+		names := []string{"light", "heavy"}
+		if tr%2 == 1 {
+			src[0], src[1] = src[1], src[0]
+			names[0], names[1] = names[1], names[0]
+		}
+		parse := func(x int) (*circuit.Circuit, error) {
+			var b bytes.Buffer
+			switch format {
+			case 0:
+				if err := src[x].Marshal(&b); err != nil {
+					return nil, err
+				}
+				return circuit.ParseMPCLC(bytes.NewReader(b.Bytes()))
+			case 1:
+				if err := src[x].MarshalBristol(&b); err != nil {
+					return nil, err
+				}
+				return circuit.ParseBristol(bytes.NewReader(b.Bytes()))
+			default:
+				if err := src[x].Marshal(&b); err != nil {
+					return nil, err
+				}
+				fn := filepath.Join(dir, fmt.Sprintf("t%d_%d.mpclc", tr, x))
+				if err := os.WriteFile(fn, b.Bytes(), 0o644); err != nil {
+					return nil, err
+				}
+				return circuit.Parse(fn)
+			}
+		}
+		var circs []*circuit.Circuit
+		for x := 0; x < 2; x++ {
+			pc, err := parse(x)
+			if err != nil {
+				return fmt.Errorf("c17Parsed: format %d: %v", format, err)
+			}
+			circs = append(circs, pc)
+		}
+		key := r.Bytes([]int{16, 24, 32}[tr%3])
+		// one garble-evaluate-release cycle; returns what went wrong
+		cycle := func(pc *circuit.Circuit, seed uint64, x []bool) (bad string) {
+			defer func() {
+				if p := recover(); p != nil {
+					bad = fmt.Sprintf("panic: %v", p)
+				}
+			}()
+			g, err := pc.Garble(NewRNG(seed), key)
+			if err != nil {
+				return "Garble: " + err.Error()
+			}
+			_, dec, err := evalOn(pc, key, g.Wires, g.Gates, x)
+			if err != nil {
+				return "Eval: " + err.Error()
+			}
+			comp, err := pc.Compute(SplitInputs(pc, x))
+			if err != nil {
+				return "Compute: " + err.Error()
+			}
+			want := TruthEval(pc, x)
+			if bitsString(decBits(dec)) != bitsString(want) || bitsString(JoinOutputs(pc, comp)) != bitsString(want) {
+				return fmt.Sprintf("decoded %s, Compute %s, expected %s", bitsString(decBits(dec)), bitsString(JoinOutputs(pc, comp)), bitsString(want))
+			}
+			g.Release()
+			return ""
+		}
+		report := func(phase string, x int, bad string) {
+			if bad == "" {
+				return
+			}
+			c.Fail("c17:parsed-circuits:same-shape-different-mix:panic-or-wrong",
+				fmt.Sprintf("two parsed circuits with the same NumWires=%d / NumGates=%d and different gate mixes (%s parsed first, then %s; parser %s): %s use of the %s one: %s",
+					ni+ng, ng, names[0], names[1], []string{"ParseMPCLC", "ParseBristol", "Parse(file)"}[format], phase, names[x], bad),
+				map[string]interface{}{"seed": c.Seed, "trial": tr, "format": format, "order": names, "gates": ng, "inputs": ni})
+		}
+		for rep := 0; rep < 2; rep++ {
+			for x := 0; x < 2; x++ {
+				c.Eval(fmt.Sprintf("parsed/%d/%d/%d", tr, rep, x), true)
+				report("sequential", x, cycle(circs[x], r.U64(), randBits(r, ni)))
+			}
+		}
+		var wg sync.WaitGroup
+		bads := make([]string, 8)
+		seeds := make([]uint64, 8)
+		xs := make([][]bool, 8)
+		for i := range seeds {
+			seeds[i], xs[i] = r.U64(), randBits(r, ni)
+		}
+		for i := 0; i < 8; i++ {
+			wg.Add(1)
+			go func(i int) {
+				defer wg.Done()
+				bads[i] = cycle(circs[i%2], seeds[i], xs[i])
+			}(i)
+		}
+		wg.Wait()
+		for i, b := range bads {
+			c.Eval(fmt.Sprintf("parsed/%d/conc/%d", tr, i), true)
+			report("concurrent", i%2, b)
+		}
+		c.Hist("parsed-pair:" + []string{"ParseMPCLC", "ParseBristol", "Parse(file)"}[format] + ":" + names[0] + "-first")
+	}
+	return nil
+}
